@@ -66,7 +66,12 @@ func sortedKeys(m reflect.Value) []reflect.Value {
 	it := m.MapRange()
 	for it.Next() {
 		k := addr(it.Key())
-		ks = append(ks, kv{canonV(k), k})
+		s := canonV(k)
+		if typeDepth(m.Type().Key()) > 0 {
+			// keys holding pointers: two distinct keys can print alike (equal pointees), the value breaks the tie
+			s += "\x00" + canonV(addr(it.Value()))
+		}
+		ks = append(ks, kv{s, k})
 	}
 	sort.Slice(ks, func(i, j int) bool { return ks[i].s < ks[j].s })
 	out := make([]reflect.Value, len(ks))
@@ -515,10 +520,17 @@ func (m *mutator) mut(v reflect.Value) {
 			return
 		}
 		m.ref[id] = true
-		for _, k := range sortedKeys(v) {
+		keys := sortedKeys(v)
+		for _, k := range keys {
 			tmp := addr(v.MapIndex(k))
 			m.mut(tmp)
 			v.SetMapIndex(k, tmp)
+		}
+		if typeDepth(v.Type().Key()) > 0 {
+			// storage behind the keys (pointer keys, keys with pointer components): the key itself stays
+			for _, k := range keys {
+				m.mutKeyPointees(k)
+			}
 		}
 		// one fresh key
 		kt := v.Type().Key()
@@ -547,6 +559,24 @@ func (m *mutator) mut(v reflect.Value) {
 	case reflect.Array:
 		for i := 0; i < v.Len(); i++ {
 			m.mut(clean(v.Index(i)))
+		}
+	}
+}
+
+// mutKeyPointees changes what the pointers inside a map key point to, never the key.
+func (m *mutator) mutKeyPointees(k reflect.Value) {
+	switch k.Kind() {
+	case reflect.Pointer:
+		if !k.IsNil() {
+			m.mut(k.Elem())
+		}
+	case reflect.Struct:
+		for i := 0; i < k.NumField(); i++ {
+			m.mutKeyPointees(clean(k.Field(i)))
+		}
+	case reflect.Array:
+		for i := 0; i < k.Len(); i++ {
+			m.mutKeyPointees(clean(k.Index(i)))
 		}
 	}
 }
